@@ -41,8 +41,19 @@ Fixpoint heapify_loop (fuel : nat) (s : store) (i : nat) : R store :=
 Definition heapify (s : store) (i : nat) : R store :=
   if decide (ssize s <= 1) then Ok s else heapify_loop (S (ssize s)) s i.
 
-(** ** bubble_up (mod.rs:746): moving-hole sift-up *)
-Fixpoint bubble_up_loop (fuel : nat) (s : store) (pos : nat) (p : P)
+(** ** bubble_up (mod.rs): moving-hole sift-up.  The hole is a drop guard
+    (store.rs, [Hole]): when a comparison unwinds, the carried slot [idx] is
+    written back into the vacant position first. *)
+Definition fill_hole (s : store) (pos idx : nat) : store :=
+  set_qp (set_heap s (<[pos := idx]> (heap s))) (<[idx := pos]> (qp s)).
+
+Definition cmp_lt_hole (s : store) (pos idx : nat) (a b : P) : R (bool * store) :=
+  match cmp_lt s a b with
+  | Unwound u => Unwound (fill_hole u pos idx)
+  | r => r
+  end.
+
+Fixpoint bubble_up_loop (fuel : nat) (s : store) (pos idx : nat) (p : P)
   : R (nat * store) :=
   match fuel with
   | O => Fault OutOfFuel
@@ -52,19 +63,19 @@ Fixpoint bubble_up_loop (fuel : nat) (s : store) (pos : nat) (p : P)
       | S _ =>
           par ← parent pos;
           pp ← prio_at s par;
-          '(b, s1) ← cmp_lt s pp p;
+          '(b, s1) ← cmp_lt_hole s pos idx pp p;
           if b : bool then
             pidx ← getu (heap s1) par;
             h ← setu (heap s1) pos pidx;
             q ← setu (qp s1) pidx pos;
-            bubble_up_loop fuel' (set_qp (set_heap s1 h) q) par p
+            bubble_up_loop fuel' (set_qp (set_heap s1 h) q) par idx p
           else Ok (pos, s1)
       end
   end.
 
 Definition bubble_up (s : store) (pos idx : nat) : R (nat * store) :=
   e ← unwrap (smap s !! idx);
-  '(pos', s1) ← bubble_up_loop (S pos) s pos e.2;
+  '(pos', s1) ← bubble_up_loop (S pos) s pos idx e.2;
   h ← setu (heap s1) pos' idx;
   q ← setu (qp s1) idx pos';
   Ok (pos', set_qp (set_heap s1 h) q).
@@ -121,8 +132,8 @@ Definition pop_if (s : store) (f : I -> P -> I * P * bool)
   end.
 
 (** push (mod.rs:429).  Occupied: the priority is replaced, the stored item
-    stays; Vacant: appended to the map, the tables, then sifted up, and only
-    then is [size] incremented. *)
+    stays; Vacant: appended to the map and the tables, [size] incremented,
+    then sifted up. *)
 Definition push (s : store) (k : I) (p : P) : R (option P * store) :=
   match get_index_of keq hash (smap s) k with
   | Some i =>
@@ -134,9 +145,9 @@ Definition push (s : store) (k : I) (p : P) : R (option P * store) :=
   | None =>
       let s1 := set_map s (smap s ++ [(k, p)]) in
       let i := ssize s1 in
-      let s2 := set_heap (set_qp s1 (qp s1 ++ [i])) (heap s1 ++ [i]) in
+      let s2 := set_size (set_heap (set_qp s1 (qp s1 ++ [i])) (heap s1 ++ [i])) (S i) in
       '(_, s3) ← bubble_up s2 i i;
-      Ok (None, set_size s3 (S (ssize s3)))
+      Ok (None, s3)
   end.
 
 (** push_increase / push_decrease (mod.rs:488, :526): [priority > *p] *)
